@@ -174,7 +174,8 @@ Definition body_frame (t : nat) (s : shared) (tk : ptask) : shared * frame :=
   | TU j it => (s, FTask false j it TUExc false)
   end.
 
-(* ConcurrentTaskSet::schedule (TaskCost::kHeavy, default multiplier 4) decides between running the functor inline and queuing *)
+(* ConcurrentTaskSet::schedule (TaskCost::kHeavy, default multiplier 4) decides between running the functor inline and queuing;
+   both inline paths consult canceled() (task_set.h as of the tree under test) *)
 Definition inline_decision (c : cfg) (s : shared) (th : thread) (force : bool) (ch : list Z) : bool * list Z :=
   if force then (false, ch) else
   if c_oracle c then
@@ -182,7 +183,7 @@ Definition inline_decision (c : cfg) (s : shared) (th : thread) (force : bool) (
   else
     let thr := Z.max (c_npool c + 1) ((4 * c_npool c) / 2) in
     if (thr <? pout s) && negb (canceled s) && can_inline th then (true, ch)
-    else if (is_pool th && ((3 * c_npool c) / 2 <? pout s)) || (c_plf c <? pout s) then (can_inline th, ch)
+    else if (is_pool th && ((3 * c_npool c) / 2 <? pout s)) || (c_plf c <? pout s) then (can_inline th && negb (canceled s), ch)
     else (false, ch).
 
 (* tasks_.schedule(task): th's stack is already the continuation of the caller *)
